@@ -69,6 +69,7 @@ class Ctx:
         self.known = []         # matched known findings
         self.cov = {"evaluations": 0, "distinct_nontrivial": 0, "samples": [], "streams": {}}
         self.distinct = set()
+        self.last_ops = {}
 
     def note(self, s):
         self.notes.append(s)
@@ -289,6 +290,7 @@ def run_stream(ctx, name, gen_args, policy="okerr", oracle=None, pm=PM, ops=None
                 ctx.k_broken.append({"kind": "stage1", "stream": name, "op": lines[k][:400]})
         ops = "\n".join(lines) + "\n"
     open(ops_path, "w").write(ops)
+    ctx.last_ops[name] = ops
     if impl_lines is not None:
         rc, impl, err = 0, "\n".join(impl_lines) + "\n", ""
     else:
@@ -406,6 +408,59 @@ def write_replay(ctx, kind, item):
     doc.update(item)
     json.dump(doc, open(path, "w"), indent=1)
     return path
+
+
+def memcheck(ctx, name, lines, pm=PM):
+    """supporting run (C04): the real library on `lines` under valgrind memcheck; a reported invalid read/write/free or use of
+    uninitialised memory is bisected to one operation line and recorded as an oracle failure"""
+    import shutil
+    if not shutil.which("valgrind") or not lines:
+        ctx.note("memcheck skipped (valgrind not available or nothing to run)")
+        return
+    vg = ["valgrind", "-q", "--error-exitcode=97", "--leak-check=no", pm, "exec"]
+    n = min(16, os.cpu_count() or 4, max(1, len(lines) // 8))
+    size = (len(lines) + n - 1) // n
+    chunks = [lines[i:i + size] for i in range(0, len(lines), size)]
+    procs = []
+    for c in chunks:
+        pr = subprocess.Popen(vg, stdin=subprocess.PIPE, stdout=subprocess.PIPE, stderr=subprocess.PIPE)
+        procs.append((pr, c))
+    import threading
+    res = [None] * len(procs)
+    def feed(k):
+        pr, c = procs[k]
+        try:
+            out, err = pr.communicate(("\n".join(c) + "\n").encode(), timeout=7200)
+            res[k] = (pr.returncode, out.decode(errors="replace"), err.decode(errors="replace"))
+        except subprocess.TimeoutExpired:
+            pr.kill()
+            res[k] = (-9, "", "timeout")
+    ths = [threading.Thread(target=feed, args=(k,)) for k in range(len(procs))]
+    for t in ths: t.start()
+    for t in ths: t.join()
+    bad = 0
+    for (rc, out, err), (_, c) in zip(res, procs):
+        if rc == 0:
+            continue
+        bad += 1
+        if rc == -9:
+            ctx.note("memcheck chunk timed out (%d lines)" % len(c))
+            continue
+        # bisect to a single line
+        cur = c
+        while len(cur) > 1:
+            half = cur[:len(cur) // 2]
+            rc2, _, _ = sh(vg, stdin=("\n".join(half) + "\n").encode(), timeout=3600)
+            cur = half if rc2 == 97 else cur[len(cur) // 2:]
+        rc3, _, err3 = sh(vg, stdin=(cur[0] + "\n").encode(), timeout=3600)
+        detail = (err3 if rc3 == 97 else err)[-1500:]
+        first = [l for l in detail.splitlines() if "==" in l][:6]
+        be = (cur[0].split(" ") + ["?", "?"])[1]
+        ctx.o_fail.append({"stream": name + "/memcheck", "op": cur[0], "impl": " | ".join(x.split("== ", 1)[-1] for x in first)[:600], "model": "-",
+                           "clause": "valgrind memcheck reports an invalid memory access / use of uninitialised memory while the library processes this input",
+                           "key": "%s/memcheck" % be})
+    ctx.cov["streams"][name + "/memcheck"] = {"ops": len(lines), "chunks": len(chunks), "chunks_with_errors": bad, "tool": "valgrind memcheck (supporting run, not a proof)"}
+    print("  memcheck %-12s ops=%d chunks=%d errors=%d" % (name, len(lines), len(chunks), bad), flush=True)
 
 
 def finish(ctx, level_text=None):
